@@ -746,3 +746,129 @@ def parent_instances(h):
                 lines.append("x H " + obs if p == 0 else "x C %d %s" % (p, obs))
         lines.append("send")
         yield inst, lines, {}
+
+
+# ------------------------------------------------------------------ C15: connection states
+
+def oracle_conn(h):
+    fails = []
+    npeers = h.nclients + 1
+    # per peer: sequence of (event index, kind, payload)
+    for p in range(npeers):
+        seq = []
+        for i, e in enumerate(h.events):
+            if e["ev"] == "op" and e.get("peer") == p and e["op"] in ("connect", "disconnect", "start_host", "stop_host", "remove_client_transport"):
+                seq.append((i, "op", e["op"]))
+            elif e["ev"] == "frame" and e["peer"] == p and e.get("state") is not None:
+                seq.append((i, "frame", e))
+        frames = [(i, x) for (i, k, x) in seq if k == "frame"]
+        # (a) ServerState follows hosting within two frames
+        for k in range(2, len(frames)):
+            i0, i2 = frames[k - 2][0], frames[k][0]
+            if any(kk == "op" and i0 < ii < i2 for (ii, kk, _) in seq):
+                continue
+            a, b, c_ = (frames[k - 2][1]["state"], frames[k - 1][1]["state"], frames[k][1]["state"])
+            if a["server_transport"] == b["server_transport"] == c_["server_transport"]:
+                want = "Connected" if c_["server_transport"] else "Disconnected"
+                if c_["server_state"] != want:
+                    fails.append(("C15", "peer %d: ServerState is %s although the server transport has been %s for two frames" % (
+                        p, c_["server_state"], "present" if c_["server_transport"] else "absent"), {"frame": frames[k][1]["n"]}))
+                    break
+        # (b) ClientState
+        last_connect = None
+        for k in range(len(frames)):
+            i, fr = frames[k]
+            st = fr["state"]
+            prev = frames[k - 1][1]["state"] if k > 0 else None
+            if st["client_state"] == "Connected" and (prev is None or prev["client_state"] != "Connected"):
+                if prev is None or not prev["client_connected"]:
+                    fails.append(("C15", "peer %d: ClientState became Connected although the transport was not connected when it was verified" % p, {"frame": fr["n"]}))
+            if fr["recv"] and p != 0 and st["client_state"] != "Connected" and not any(m["as_server"] for m in fr["recv"]):
+                fails.append(("C15", "peer %d: replication acted (messages polled) while ClientState was %s" % (p, st["client_state"]), {"frame": fr["n"]}))
+            if k >= 2:
+                i0 = frames[k - 2][0]
+                ops = [(ii, x) for (ii, kk, x) in seq if kk == "op" and i0 < ii < i]
+                a, b = frames[k - 2][1]["state"], frames[k - 1][1]["state"]
+                if not ops and not a["client_transport"] and not b["client_transport"] and not st["client_transport"]:
+                    if st["client_state"] != "Disconnected":
+                        fails.append(("C15", "peer %d: ClientState is still %s two frames after the application removed its transport" % (p, st["client_state"]), {"frame": fr["n"]}))
+                        break
+        # (d) InitialSyncFinished once per join / once per start of hosting: per connected stretch at most one,
+        # and exactly one for a stretch that lasts until the (drained) end
+        final_drain = [e for e in h.events if e["ev"] == "drain" and e.get("final")]
+        drained = bool(final_drain and final_drain[0]["quiescent"])
+        stretch_start_sf, in_stretch = None, False
+        for k in range(len(frames)):
+            st = frames[k][1]["state"]
+            conn = (st["client_state"] == "Connected") if p != 0 else (st["server_state"] == "Connected")
+            if conn and not in_stretch:
+                in_stretch = True
+                # the host raises the event in the frame that requests the state change, one frame before the state shows
+                back = 2 if p == 0 else 1
+                stretch_start_sf = frames[k - back][1]["state"]["sync_finished"] if k >= back else 0
+            if in_stretch and st["sync_finished"] - stretch_start_sf > 1:
+                fails.append(("C15", "peer %d observed InitialSyncFinished %d times within one join" % (p, st["sync_finished"] - stretch_start_sf), {"frame": frames[k][1]["n"]}))
+                break
+            if not conn and in_stretch:
+                in_stretch = False
+        if in_stretch and drained and frames:
+            st = frames[-1][1]["state"]
+            if st["sync_finished"] - stretch_start_sf != 1:
+                fails.append(("C15", "peer %d observed InitialSyncFinished %d times for its current join" % (p, st["sync_finished"] - stretch_start_sf), {}))
+        # at the frame the event is raised on a client, the snapshot content has been applied
+        if p != 0:
+            sf = 0
+            for k in range(len(frames)):
+                i, fr = frames[k]
+                st = fr["state"]
+                if st["sync_finished"] > sf:
+                    sf = st["sync_finished"]
+                    # the host frame that processed this client's RequestInitialSync
+                    hostreq = None
+                    for j in range(i, -1, -1):
+                        e = h.events[j]
+                        if e["ev"] == "frame" and e["peer"] == 0 and any(m["msg"]["k"] == "reqsync" and m.get("from") == p for m in e["recv"]):
+                            hostreq = e
+                            break
+                    if hostreq is not None and hostreq.get("state"):
+                        mine = {x["uuid"]: x for x in st["ents"]}
+                        for x in hostreq["state"]["ents"]:
+                            y = mine.get(x["uuid"])
+                            if y is None:
+                                fails.append(("C15", "peer %d: InitialSyncFinished was raised before an entity of the snapshot had been created" % p, {"uuid": x["uuid"][:8]}))
+                                break
+                            for t, v in x["comps"].items():
+                                if t in h.registered and t not in x["excl"] and y["comps"].get(t) is None:
+                                    fails.append(("C15", "peer %d: InitialSyncFinished was raised before a component of the snapshot had been applied" % p, {"uuid": x["uuid"][:8], "ty": t}))
+                                    break
+    return fails
+
+
+def conn_lines(h, legacy):
+    """per peer: transport operations, the handshake as observed, frames; the model must publish the same states"""
+    out = []
+    for p in range(h.nclients + 1):
+        script = []
+        prev_conn = False
+        for e in h.events:
+            if e["ev"] == "op" and e.get("peer") == p:
+                if e["op"] == "start_host":
+                    script.append("si")
+                elif e["op"] == "stop_host":
+                    script.append("sr")
+                elif e["op"] == "connect":
+                    script.append("ci")
+                    prev_conn = False
+                elif e["op"] in ("disconnect", "remove_client_transport"):
+                    script.append("cr")
+                    prev_conn = False
+            elif e["ev"] == "frame" and e["peer"] == p and e.get("state") is not None:
+                st = e["state"]
+                if st["client_connected"] != prev_conn:
+                    script.append("k1" if st["client_connected"] else "k0")
+                    prev_conn = st["client_connected"]
+                script.append("f")
+                script.append("x:%s:%s" % (st["server_state"], st["client_state"]))
+        if script:
+            out.append("conn %s/%d %d %s" % (h.id, p, 1 if legacy else 0, ";".join(script)))
+    return out
